@@ -387,6 +387,18 @@ func (t *fnTrans) siteBefore(site string, in ssa.Instruction, cc *ssa.CallCommon
 	}
 	for k, sl := range t.contract.atBefore[site] {
 		e := t.selfCtx()
+		if cc != nil {
+			// arg0, arg1, ...: the actual arguments of the call at this site (receiver excluded for methods)
+			args := cc.Args
+			if !cc.IsInvoke() {
+				if callee := t.g.staticCallee(cc); callee != nil && callee.Signature.Recv() != nil && len(args) > 0 {
+					args = args[1:]
+				}
+			}
+			for i, a := range args {
+				e.binds[fmt.Sprintf("arg%d", i)] = sval{term: t.val(a), typ: a.Type(), sort: t.sortOf(a.Type())}
+			}
+		}
 		if term, ok := t.evalBool(e, sl); ok {
 			t.oblige("site", fmt.Sprintf("before:%s:%d", site, k+1), in.Pos(), term, "assert before "+site+": "+sl.text)
 		}
